@@ -6,7 +6,7 @@ CHECKS = {
  # id: (technique, level text, level note, design ref, engine)
  "C01": ("property-based testing (proptest, 16 seeded runners) with boundary-constructed generators + exact decimal-midpoint oracle over all 8 feature configurations; second engine: coverage-guided libFuzzer target fz_round (ASan) with the same oracle inside",
          "Generated-input search: millions of inputs constructed on and around f64 rounding boundaries (exact midpoints, continued-fraction closest approaches, cut-off positions, seams, range ends, long tails), parsed in all 8 configurations and judged two-sidedly by an independent exact oracle. Exploration, not proof: the f64 input space cannot be enumerated, so cases are placed on the algorithms' decision boundaries.",
-         "Trusts the harness's own Nat arithmetic and midpoint oracle (self-tested every run against 16 820 golden vectors from the repository's own data, std's parser, and a second arithmetic formulation). Runs natively on x86_64; the crate's 32-bit-limb code is exercised by a Miri stage (--target i686) on 24 (quick) / 1500 (thorough) generated big-integer-path inputs with oracle verdicts.",
+         "Trusts the harness's own Nat arithmetic and midpoint oracle (self-tested every run against 16 820 golden vectors from the repository's own data, std's parser, and a second arithmetic formulation). Runs natively on x86_64; the crate's 32-bit-limb code is exercised by a Miri stage (--target i686) on 48 (quick) / 1200 (thorough) generated big-integer-path inputs with oracle verdicts.",
          "DESIGN.md section 2, C01", "mlv+libfuzzer"),
  "C02": ("property-based testing (proptest) with boundary-constructed generators + exact decimal-midpoint oracle; double-rounding traps; f32 boundary sweep by enumeration in the thorough tier",
          "Same engine as C01 for f32 (f32 constants), plus the double-rounding trap family; the thorough tier enumerates f32 rounding boundaries.",
@@ -19,7 +19,7 @@ CHECKS = {
          "A panic site reachable only through Lemire's lo == u64::MAX fallback (a ~2^-73 coincidence) is not reached by generation.", "DESIGN.md section 2, C04", "mlv supervisor"),
  "C05": ("differential testing: 8 separately compiled feature configurations linked into one process, bit comparison on generated boundary inputs",
          "Differential oracle (no reference value needed) over the C01/C02 generator mixture for both formats.",
-         "The 32-bit-limb variant is only interpreted (Miri, i686; four configurations, oracle verdicts computed natively) on 24 inputs in the quick and 1500 in the thorough tier; big-endian targets and the x87 `nightly` path are not executed.", "DESIGN.md section 2, C05", "mlv"),
+         "The 32-bit-limb variant is only interpreted (Miri, i686; four configurations, oracle verdicts computed natively) on 48 inputs in the quick and 1200 in the thorough tier; big-endian targets and the x87 `nightly` path are not executed.", "DESIGN.md section 2, C05", "mlv"),
  "C06": ("property-based testing with constructed long tails: deciding digit placed at chosen absolute positions (19-digit cut, MAX_DIGITS cut, chunk edges, 1e3..1e6), expectation by construction and by the exact oracle",
          "Every case has >= 20 significant digits and sits on a rounding boundary; positions sweep every cut-off the code has.",
          "Same oracle as C01.", "DESIGN.md section 2, C06", "mlv"),
